@@ -524,10 +524,11 @@ impl<'de> Deserialize<'de> for RefLenient {
     }
 }
 
-/// Like `Ref` (derive-shaped, `deserialize_struct` with the right field names)
-/// but it keeps reading unknown keys' values instead of stopping at the key —
-/// no: identical to `Ref` except that it asks for the container through
-/// `deserialize_map`, i.e. without the `fields` hint.
+/// The standard reader without the `fields` hint: identical to `Ref` in what it
+/// accepts (f64 words via serde's own impl; unknown, duplicate and missing
+/// fields are errors; exactly two sequence elements are read) but it asks for
+/// the container with `deserialize_any`, so a hint-driven host (serde's
+/// flatten) shows it every entry instead of only `hi` and `lo`.
 #[derive(Debug)]
 pub struct RefNoHint {
     pub hi: f64,
